@@ -55,6 +55,11 @@ def step (σ : St) (op : String) : St × Option String :=
       ({ σ with mRev := e :: σ.mRev, idxM := σ.idxM.insert key σ.n, n := σ.n + 1 }, none)
     else
       ({ σ with vRev := e :: σ.vRev, idxV := σ.idxV.insert key σ.n, n := σ.n + 1 }, none)
+  | "lsf" :: rest =>
+    -- judge: a listing during which ONE descriptor read fails ends with an error or with exactly
+    -- the fault-free listing (same objects, same order) — it neither hangs nor returns a part
+    let got := (kvGet (kvs rest) "got").getD ""
+    (σ, some (if got == "same" || got == "err" then "sound" else "UNSOUND"))
   | "ls" :: rest =>
     let kv := kvs rest
     let σ := match σ.frozen with
